@@ -16,6 +16,7 @@ from . import runner, symx
 
 PROPS = {
     "C01": "vp.harness.c01_bls",
+    "C02": "vp.harness.c02_layout",
     "C11": "vp.harness.c11_xdef",
     "C12": "vp.harness.c12_const",
 }
